@@ -296,6 +296,10 @@ def layouts():
     L.append(("continuation_formfeed", lambda d, c, desc: ["@{}(".format(d), "<COL0>\flambda x, xs: {})".format(c)]))
     # a nested f-string inside a multi-line f-string
     L.append(("string_nested_fstring", lambda d, c, desc: ["@{}(lambda x, xs: 'z' != f\"\"\"{{f'{{1}}'}}a".format(d), "    b\"\"\" and ({}))".format(c)]))
+    # the lambda has parameters of its own whose default values contain a colon (dict display, slice, nested lambda)
+    L.append(("lambda_default_with_colon", lambda d, c, desc: ["@{}(lambda x, xs, table={{'k': 1}}, tail=CL7[1:], key=lambda v: v: {})".format(d, c)]))
+    L.append(("lambda_default_with_colon_many_lines", lambda d, c, desc: ["@{}(".format(d), "    condition=lambda x, xs,", "    table={'k': 1}, tail=CL7[1:]:", "    {},".format(c),
+                                                                         "    description={!r})".format(desc)]))
     L.append(("error_kw_after", lambda d, c, desc: ["@{}(lambda x, xs: {}, error=MyErr)".format(d, c)]))
     return L
 
@@ -329,7 +333,7 @@ def render_layout(layout_fn, alias, cond, neighbours, scope, target):
     description_with_def = any("def is no statement here" in ln for ln in deco)
     backslash_layout = len(deco) == 2 and deco[0].endswith("'a\\")
     if is_inv:
-        deco = [ln.replace("lambda x, xs:", "lambda self:") for ln in deco]
+        deco = [ln.replace("lambda x, xs:", "lambda self:").replace("lambda x, xs,", "lambda self,") for ln in deco]
     other_i = "@icontract.invariant(lambda self: True)" if is_inv else "@icontract.require(lambda x: True)"
     above, below = [], []
     if neighbours in ("icontract_above", "both"):
@@ -357,7 +361,7 @@ def render_layout(layout_fn, alias, cond, neighbours, scope, target):
         call = "f(X, XS)"
     block = above + deco + below + tgt
     hdr = ["import functools", "import icontract", "import icontract as ic", "import icontract as \u00e9tat", "req = icontract.require", "class MyErr(Exception): pass",
-           "def defined(v): return True", "def classes_ok(v): return True", "def async_def_ok(v): return True",
+           "CL7 = [7, 7, 7]", "def defined(v): return True", "def classes_ok(v): return True", "def async_def_ok(v): return True",
            "class _M:", "    def __matmul__(self, other): return 0", "    def __repr__(self): return 'M'", "M = _M()",
            "def fw(fn):", "    @functools.wraps(fn)", "    def w(*a, **k):", "        return fn(*a, **k)", "    return w",
            "def RUN(c):", "    try:", "        while True: c.send(None)", "    except StopIteration as s:", "        return s.value", ""]
@@ -466,7 +470,7 @@ def check_layout(case, acc, lay_by_name):
                 bad = ("location_scope", "{!r} expected {!r}".format(m.group(3), exp_scope))
             else:
                 rest = msg.split("\n", 1)[1]
-                if has_desc and desc in src and not rest.startswith(desc + ": ") and "description" in lname or (lname in ("one_line_desc_pos", "one_line_desc_kw", "body_many_lines", "kw_condition_first", "kw_condition_last", "kw_condition_middle", "kw_multi_line", "continuation_starts_like_def", "at_line_in_description", "def_line_in_description") and not rest.startswith(desc + ": ")):
+                if has_desc and desc in src and not rest.startswith(desc + ": ") and "description" in lname or (lname in ("one_line_desc_pos", "one_line_desc_kw", "body_many_lines", "kw_condition_first", "kw_condition_last", "kw_condition_middle", "kw_multi_line", "continuation_starts_like_def", "at_line_in_description", "def_line_in_description", "lambda_default_with_colon_many_lines") and not rest.startswith(desc + ": ")):
                     bad = ("description_missing", rest[:120])
                 else:
                     if rest.startswith(desc + ": "):
